@@ -45,7 +45,12 @@ REQUIRE = {
     "b_cells_remapped": 5000,
     "b_focus_map_used": 100,
     "b_mutations_judged": 50,
-    "b_chain_depth_ge3": 200,
+    "b_chain_depth_ge3": 150,
+    "b_cells_equal_nonidempotent_maps_on_path": 600,
+    "b_cells_equal_nonidempotent_maps_directly_nested": 300,
+    "b_cells_second_equal_map_changes_result": 80,
+    "b_maps_chain_target_listed_before_pointer": 200,
+    "b_maps_chain_target_listed_after_pointer": 200,
     "c_scenarios": 100,
     "c_cells_judged": 4000,
     "c_pairs_distinct_styles": 1500,
@@ -87,7 +92,7 @@ RULE = (
     "pairwise distinct characters (ASCII, 2-byte, CJK wide, 4-byte wide, DEC line drawing) with random spaces/newlines, "
     "Text|Edit, width 1..30, wrap space|any|clip|ellipsis, align left|center|right[, edit_pos]); "
     "(b) case = (widget tree recipe of unique-glyph leaves Text/Edit/SolidFill in Pile/Columns under AttrMap/AttrWrap/"
-    "fill_attr/fill_attr_apply chains with pool attribute names, width, focus, optional map mutation); "
+    "fill_attr/fill_attr_apply chains (Padding / LineBox in between; maps often EQUAL on several levels and non-idempotent: chains a->b->c, swaps, cycles, both dict orders) with pool attribute names, width, focus, optional map mutation); "
     "(l) case = (encoding, markup, width, user-supplied TextLayout returning a generated layout structure: forward / overlapping "
     "(repeat the last 1-4 characters) / reversed line order / repeated lines / skipping / right-to-left mirrored / random segments with "
     "inserted blanks and inserted text); expected cell attributes follow from the segment list alone; "
@@ -729,6 +734,7 @@ def a_shrink(case, sig, budget=120):
 #       | ["fill", attr_idx, node] | ["apply", [[k, v], ...], node]   (canvas-level, via a tiny decoration widget)
 #       | ["pile", focus_pos, [item, ...]]   item := node (flow) | ["given", rows, boxnode]
 #       | ["cols", focus_pos, dividechars, [[width, node], ...]]
+#       | ["pad", left, right, node] (urwid.Padding) | ["lbox", node] (urwid.LineBox)
 # mapspec := ["single", attr_idx] | ["dict", [[k_idx, v_idx], ...]]
 
 
@@ -747,6 +753,27 @@ def spec_to_arg(spec):
     if spec[0] == "single":
         return POOL[spec[1]]
     return {POOL[k]: POOL[v] for k, v in spec[1]}
+
+
+def gen_chain_mapspec(rng, used):
+    """a map that is NOT idempotent: some value is also a key (chain a->b->c, swap a<->b, cycle), pairs in random
+    dict order (the chain target listed before or after the key pointing at it)"""
+    pool = list(dict.fromkeys([*used, *rng.sample(range(NPOOL), 3)]))
+    rng.shuffle(pool)
+    n = rng.randint(2, min(4, len(pool)))
+    ks = pool[:n]
+    shape = rng.choice(["chain", "chain", "swap", "cycle"])
+    if shape == "swap":
+        pairs = [[ks[0], ks[1]], [ks[1], ks[0]]]
+    elif shape == "cycle":
+        pairs = [[ks[i], ks[(i + 1) % n]] for i in range(n)]
+    else:
+        pairs = [[ks[i], ks[i + 1]] for i in range(n - 1)]
+        if rng.random() < 0.4:
+            pairs.append([ks[-1], rng.randrange(NPOOL)] if rng.random() < 0.5 else [rng.randrange(NPOOL), ks[0]])
+            pairs = [[k, v] for k, v in dict((k, v) for k, v in pairs).items()]
+    rng.shuffle(pairs)
+    return ["dict", pairs]
 
 
 def gen_mapspec(rng, used, allow_single=True):
@@ -769,6 +796,7 @@ class _BGen:
         rng.shuffle(self.glyphs)
         self.used = [0]  # attribute indices in play (None always)
         self.shared = []
+        self.bank = []  # dict map specs already used in this tree: reused to get EQUAL maps on several levels
 
     def take(self, n):
         out = []
@@ -804,19 +832,34 @@ class _BGen:
             self.shared.append(node)
         return node
 
+    def dictspec(self, allow_single=True):
+        """a map spec; often one equal to (a fresh copy of) a map used elsewhere in the tree, often non-idempotent"""
+        rng = self.rng
+        r = rng.random()
+        if self.bank and r < 0.35:
+            spec = rng.choice(self.bank)
+            return ["dict", [list(p) for p in spec[1]]]
+        if r < 0.6:
+            spec = gen_chain_mapspec(rng, self.used)
+        else:
+            spec = gen_mapspec(rng, self.used, allow_single)
+        if spec[0] == "dict" and spec[1]:
+            self.bank.append(spec)
+        return spec
+
     def wrap(self, child):
         rng = self.rng
         r = rng.random()
         if r < 0.5:
-            fm = gen_mapspec(rng, self.used) if rng.random() < 0.6 else None
-            node = ["map", "AttrMap", gen_mapspec(rng, self.used), fm, child]
+            fm = self.dictspec() if rng.random() < 0.6 else None
+            node = ["map", "AttrMap", self.dictspec(), fm, child]
         elif r < 0.68:
             fm = ["single", rng.randrange(1, NPOOL)] if rng.random() < 0.6 else None
             node = ["map", "AttrWrap", ["single", rng.randrange(NPOOL)], fm, child]
         elif r < 0.84:
             node = ["fill", rng.randrange(NPOOL), child]
         else:
-            node = ["apply", gen_mapspec(rng, self.used, allow_single=False)[1], child]
+            node = ["apply", self.dictspec(allow_single=False)[1], child]
         for spec in node[2:4] if node[0] == "map" else []:
             if spec and spec[0] == "single" and spec[1] not in self.used:
                 self.used.append(spec[1])
@@ -851,6 +894,11 @@ class _BGen:
             node = ["cols", rng.randrange(n), rng.choice([0, 0, 1, 2]), [[rng.randint(1, 6), self.flow(depth - 1)] for _ in range(n)]]
         for _ in range(rng.choice([0, 1, 1, 2, 3])):
             node = self.wrap(node)
+            r = rng.random()
+            if r < 0.1:
+                node = ["pad", rng.randint(0, 2), rng.randint(0, 2), node]  # something between two map levels
+            elif r < 0.18:
+                node = ["lbox", node]
         return node
 
 
@@ -866,6 +914,10 @@ def b_min_width(node) -> int:
         return max(b_min_width(it[2] if it[0] == "given" else it) for it in node[2])
     if k == "cols":
         return sum(w for w, _c in node[3]) + node[2] * (len(node[3]) - 1)
+    if k == "pad":
+        return node[1] + node[2] + b_min_width(node[3])
+    if k == "lbox":
+        return 2 + b_min_width(node[1])
     raise ValueError(node)
 
 
@@ -883,6 +935,10 @@ def b_fix_widths(node):
         for pair in node[3]:
             b_fix_widths(pair[1])
             pair[0] = max(pair[0], b_min_width(pair[1]))
+    elif k == "pad":
+        b_fix_widths(node[3])
+    elif k == "lbox":
+        b_fix_widths(node[1])
 
 
 def gen_b_case(rng):
@@ -921,6 +977,10 @@ def _b_maps_in(node, out):
     elif k == "cols":
         for _w, c in node[3]:
             _b_maps_in(c, out)
+    elif k == "pad":
+        _b_maps_in(node[3], out)
+    elif k == "lbox":
+        _b_maps_in(node[1], out)
     return out
 
 
@@ -992,6 +1052,14 @@ def b_model(node, width, focus, nrows=None):
             else:
                 rows += b_model(it, width, f)
         return rows
+    if k == "pad":
+        inner = b_model(node[3], width - node[1] - node[2], focus)
+        return [[[" ", None, []] for _ in range(node[1])] + row + [[" ", None, []] for _ in range(node[2])] for row in inner]
+    if k == "lbox":
+        inner = b_model(node[1], width - 2, focus)
+        top = [["\u250c", None, []]] + [["\u2500", None, []] for _ in range(width - 2)] + [["\u2510", None, []]]
+        bot = [["\u2514", None, []]] + [["\u2500", None, []] for _ in range(width - 2)] + [["\u2518", None, []]]
+        return [top] + [[["\u2502", None, []]] + row + [["\u2502", None, []]] for row in inner] + [bot]
     if k == "cols":
         parts = [b_model(c, w, focus and i == node[1]) for i, (w, c) in enumerate(node[3])]
         h = max(len(p) for p in parts)
@@ -1083,6 +1151,10 @@ def b_build(node, memo, maps):
     elif k == "cols":
         items = [(wd, b_build(c, memo, maps)) for wd, c in node[3]]
         w = urwid.Columns(items, dividechars=node[2], focus_column=node[1])
+    elif k == "pad":
+        w = urwid.Padding(b_build(node[3], memo, maps), left=node[1], right=node[2])
+    elif k == "lbox":
+        w = urwid.LineBox(b_build(node[1], memo, maps))
     else:
         raise ValueError(node)
     memo[key] = w
@@ -1093,9 +1165,24 @@ def _same(a, b) -> bool:
     return a == b and type(a) is type(b)
 
 
+def _nonidempotent(m: dict) -> bool:
+    """some value the map produces is itself remapped by the map to something else"""
+    for v in m.values():
+        try:
+            if v in m and not _same(m[v], v):
+                return True
+        except TypeError:
+            pass
+    return False
+
+
 def b_diagnose(actual, base, path):
     """name the way `actual` differs from the fold of `path` over `base`"""
     n = len(path)
+    for i in range(n - 1):
+        if path[i][1] and path[i][1] == path[i + 1][1]:
+            if _same(actual, M.fold_maps([p[1] for j, p in enumerate(path) if j != i], base)) and not _same(actual, M.fold_maps([p[1] for p in path], base)):
+                return "one-of-two-equal-nested-maps-not-applied"
     if _same(actual, base) and n:
         return "no-map-applied"
     for i in range(n):
@@ -1153,13 +1240,25 @@ def b_check_render(case, tree, widget, stats, label, keep=None):
             maxdepth = max(maxdepth, len(path))
             if not _same(want, base):
                 cnt("b_cells_remapped")
+            # equal maps on two levels of the path (distinct dict objects), and is that map non-idempotent?
+            for i in range(len(path) - 1):
+                m = path[i][1]
+                if m and _nonidempotent(m) and any(path[j][1] == m for j in range(i + 1, len(path))):
+                    cnt("b_cells_equal_nonidempotent_maps_on_path")
+                    if path[i + 1][1] == m:
+                        cnt("b_cells_equal_nonidempotent_maps_directly_nested")
+                        before = M.fold_maps([p[1] for p in path[:i]], base)
+                        once = M.apply_map(m, before)
+                        if not _same(M.apply_map(m, once), once):
+                            cnt("b_cells_second_equal_map_changes_result")
+                    break
             if any(p[3] and p[2] is not None and p[0] in ("AttrMap", "AttrWrap") and p[1] is not p[2] for p in path):
                 cnt("b_cells_under_focus_choice")
             if not _same(a, want):
                 how = b_diagnose(a, base, path)
                 kinds = ">".join(sorted({p[0] for p in path}))
                 cell = "glyph" if glyph != " " else "blank"
-                out.append((f"C17|b|cell-attr|{how}|cell={cell}|ops={kinds}|depth={min(len(path), 3)}{'+' if len(path) > 3 else ''}|focus={bool(focus)}|render={label}", f"cell ({x},{y}) {glyph!r}: attr {a!r}, expected {want!r} = fold over base {base!r} of {[(p[0], p[1]) for p in path]!r}"))
+                out.append((f"C17|b|cell-attr|{how}|render={'first' if label == 'first' else 'after-map-mutation'}", f"{cell} cell, ops={kinds}, depth={len(path)}, focus={bool(focus)}, render={label}: cell ({x},{y}) {glyph!r}: attr {a!r}, expected {want!r} = fold over base {base!r} of {[(p[0], p[1]) for p in path]!r}"))
     cnt(f"b_chain_depth_{min(maxdepth, 4)}")
     if maxdepth >= 3:
         cnt("b_chain_depth_ge3")
@@ -1176,6 +1275,10 @@ def _b_focus_map_used(node, focus) -> int:
         return sum(_b_focus_map_used(it[2] if it[0] == "given" else it, focus and i == node[1]) for i, it in enumerate(node[2]))
     if k == "cols":
         return sum(_b_focus_map_used(c, focus and i == node[1]) for i, (_w, c) in enumerate(node[3]))
+    if k == "pad":
+        return _b_focus_map_used(node[3], focus)
+    if k == "lbox":
+        return _b_focus_map_used(node[1], focus)
     return 0
 
 
@@ -1206,6 +1309,13 @@ def b_eval(case, stats=None):
         out += res
         if judged:
             cnt("b_focus_map_used", _b_focus_map_used(tree, case["focus"]))
+            for node in _b_maps_in(tree, []):
+                for spec in node[2:4]:
+                    if spec and spec[0] == "dict":
+                        keys = [k for k, _v in spec[1]]
+                        for pos, (k, v) in enumerate(spec[1]):
+                            if v in keys and v != k:
+                                cnt("b_maps_chain_target_listed_before_pointer" if keys.index(v) < pos else "b_maps_chain_target_listed_after_pointer")
         if case["mut"] and maps:
             t2, eff = b_apply_mut(tree, case["mut"])
             if t2 is not None:
@@ -2106,6 +2216,14 @@ def _b_node_variants(node):
                 yield ["cols", min(node[1] - (1 if i < node[1] else 0), len(rest) - 1), node[2], rest]
             for v in _b_node_variants(c):
                 yield ["cols", node[1], node[2], items[:i] + [[w, v]] + items[i + 1 :]]
+    elif k == "pad":
+        yield node[3]
+        for v in _b_node_variants(node[3]):
+            yield ["pad", node[1], node[2], v]
+    elif k == "lbox":
+        yield node[1]
+        for v in _b_node_variants(node[1]):
+            yield ["lbox", v]
     elif k == "text" and len(node[1]) > 1:
         yield ["text", node[1][:-1], node[2][:-1]]
         yield ["text", node[1][1:], node[2][1:]]
